@@ -835,11 +835,122 @@ def check_primitive_siblings(ctx):
         ctx.undecided('R2-struct-block', dc, 'Data._compile', 'no path stores struct_code', dc.node.lineno, clause='d')
 
 
+def check_driver_holes(ctx, rule='R2-skeleton'):
+    """(a') the generated driver is the frame compared above plus two statement holes: the field
+    blocks (inside the try) and the unrolled sync calls.  Any further hole puts statements into the
+    generated driver that the generic driver does not have; when its generator emits a raise or a
+    return, the generated driver ends on inputs where the generic one goes on"""
+    repo = ctx.repo
+    cg = repo.cls('CodeGenerator')
+    for d in D.get_drivers(repo):
+        if d.origin == 'generic' or d.template is None:
+            continue
+        known = 0
+        for node in ast.walk(d.node):
+            if not (isinstance(node, ast.Expr) and isinstance(node.value, ast.Name) and node.value.id.startswith('__HOLE_')):
+                continue
+            hole = node.value.id[len('__HOLE_'):-2]
+            if hole in ('blocks_of_code', 'sync_descriptors_code'):
+                known += 1
+                continue
+            val = d.template.values.get(hole)
+            gens = []
+            for x in (ast.walk(val) if val is not None else []):
+                if isinstance(x, ast.Call) and isinstance(x.func, ast.Attribute) and canon(x.func.value) == 'self' and x.func.attr in cg.methods:
+                    gens.append(cg.methods[x.func.attr])
+                # the normal form names the value of an expanded helper _<helper>_value
+                if isinstance(x, ast.Name) and x.id.startswith('_') and x.id.endswith('_value') and x.id[1:-6] in cg.methods:
+                    gens.append(cg.methods[x.id[1:-6]])
+            lits = [c.value for g in gens for c in ast.walk(g.node) if isinstance(c, ast.Constant) and isinstance(c.value, str)]
+            if val is not None:
+                lits += [c.value for c in ast.walk(val) if isinstance(c, ast.Constant) and isinstance(c.value, str)]
+            ends = [l for l in lits if any(ln.strip().startswith(('raise ', 'return ', 'return', 'assert ')) for ln in l.split('\n'))]
+            st = '%s: statement hole %%(%s)s filled by %s' % (d.label, hole, ', '.join(g.qual for g in gens) or (canon(val)[:60] if val is not None else None))
+            if ends:
+                ctx.violation(rule, d.where, st, 'the generated driver gets statements that end it (%s) where the generic driver has none: some inputs fail (or return) in the generated code only' % ends[0].strip().split('\n')[-1].strip()[:60], d.node.lineno, clause='a', witness=True)
+            else:
+                ctx.undecided(rule, d.where, st, 'statements of this hole have no counterpart in the generic driver and are not compared with it', d.node.lineno, clause='a')
+        if known >= 2:
+            ctx.holds(rule, d.where, '%s: statement holes = field blocks + sync calls' % d.label, 'nothing else is spliced into the driver frame', d.node.lineno, clause='a')
+
+
+def check_hook_siblings(ctx, rule='R2-driver-symmetry'):
+    """(b') the descriptor sync hooks stand on the same side of the try in the generic and in the
+    generated driver of a kind: otherwise a failing hook is a PacketError with one of them and a
+    bare exception with the other"""
+    repo = ctx.repo
+    from .. import drivers as D
+    by = {}
+    for d in D.get_drivers(repo):
+        want = 'get_sync_before_pack_methods' if d.kind == 'pack' else 'get_sync_after_unpack_methods'
+        where = set()
+        for pos, s_, g in D.sync_sites(d):
+            if g == want:
+                where.add('inside' if pos not in ('pre', 'post') else 'outside')
+        by.setdefault(d.kind, {})[d.origin] = (where, d)
+    for kind, m in sorted(by.items()):
+        if len(m) != 2:
+            continue
+        (wa, da), (wb, db) = m['generic'], m[[o for o in m if o != 'generic'][0]]
+        st = '%s drivers: sync hooks %s the try (generic), %s (generated)' % (kind, '/'.join(sorted(wa)) or 'absent from', '/'.join(sorted(wb)) or 'absent from')
+        if wa == wb:
+            ctx.holds(rule, da.where, st, 'a failing hook surfaces the same way in both', da.node.lineno, clause='b')
+        else:
+            ctx.violation(rule, da.where, st, 'a hook that raises is reported as PacketError by one driver and escapes as the original exception from the other: the two no longer fail alike on the same input', da.node.lineno, clause='b', witness=True)
+
+
+VALUE_CODES = set('cbB?hHiIlLqQnNefdspP')
+
+
+def check_struct_code_owners(ctx, rule='R2-struct-block'):
+    """(d'') the struct block stands in for the member's own pack / unpack, so every class that
+    gives its instances a struct code is one whose methods were compared with it above (Int,
+    Data); and a code is a value code -- a pad code 'x' reads nothing and writes zero bytes where
+    the member's own pack leaves a hole"""
+    repo = ctx.repo
+    n = 0
+    for ci in repo.classes.values():
+        for fi in ci.methods.values():
+            for node in ast.walk(fi.node):
+                if not isinstance(node, ast.Assign):
+                    continue
+                for t in node.targets:
+                    if not (isinstance(t, ast.Attribute) and t.attr == 'struct_code'):
+                        continue
+                    n += 1
+                    v = node.value
+                    st = '%s: %s.struct_code = %s' % (fi.qual, canon(t.value), canon(v)[:60])
+                    if isinstance(v, ast.Constant) and v.value is None:
+                        ctx.holds(rule, fi, st, 'no struct code: the member keeps its own methods', node.lineno, clause='d')
+                        continue
+                    lits = [x.value for x in ast.walk(v) if isinstance(x, ast.Constant) and isinstance(x.value, str)]
+                    pads = [l for l in lits if l.rstrip().endswith('x') or 'x' in l.replace('%x', '')]
+                    if ci.name in ('Int', 'Data') and canon(t.value) == 'self':
+                        if pads:
+                            ctx.violation(rule, fi, st, "a pad code: the struct call writes zero bytes and yields no value for this member", node.lineno, clause='d', witness=True)
+                        else:
+                            ctx.holds(rule, fi, st, 'a class whose own codec is compared with the struct block (C05 / Data siblings)', node.lineno, clause='d')
+                    elif pads:
+                        ctx.violation(rule, fi, st, "class %s joins the struct blocks with a pad code: the generated pack writes zero bytes there (its own pack leaves the positions to the fill byte or to other fields) and the generated tuple has no value for it" % ci.name, node.lineno, clause='d', witness=True)
+                    else:
+                        ctx.undecided(rule, fi, st, 'class %s gives itself a struct code: no rule compares its own pack / unpack with the struct call that replaces them' % ci.name, node.lineno, clause='d')
+    ctx.floor('struct_code stores', n, 4)
+
+
 def check(ctx):
     check_skeletons(ctx)
     check_partition(ctx)
     check_struct_block(ctx)
     check_primitive_siblings(ctx)
+    check_struct_code_owners(ctx)
+    check_hook_siblings(ctx)
+    check_driver_holes(ctx)
+    # what the class runs is the text generated for it: a module taken from the cache is installed
+    # only after its cookie was compared (C15 V); otherwise the class silently runs the drivers of
+    # another declaration while its generic twin is right
+    from ..cache import CacheModel
+    from .c16 import check_protocol
+    check_protocol(ctx, CacheModel(ctx.repo, max_paths=max(ctx.max_paths, 65536)), 'V')
     from .c04 import check_templates_decode
     check_templates_decode(ctx, 'R2-generated-decode-strict')
     # append / extend go through insert (same collision checks whatever the fragment granularity)
